@@ -5,6 +5,7 @@ import ast
 import re
 
 from ..core import AnalysisError
+from .shared_py import inn
 from ..pyfront import unparse, norm_key, try_const
 from .. import excflow
 
@@ -93,7 +94,7 @@ def acyclicity_establishers(ctx, L):
     ts = pp.func('Parser.p_type_spec_4')
     s = ws(unparse(ts.node))
     # prophy text: a type can only be referenced after its declaration (and a redefinition is an error that fails the parse)
-    declared_before_use = 't[1] in self.typedecls' in s and "\"type '{}' was not declared\".format(t[1])" in s
+    declared_before_use = inn('t[1] in self.typedecls', s) and inn("\"type '{}' was not declared\".format(t[1])", s)
     uid = pp.func('Parser.p_unique_id')
     redefinition_fails = 't[1] not in self.typedecls and t[1] not in self.constdecls' in ws(unparse(uid.node))
     L.check(declared_before_use and redefinition_fails, 'F12.establisher', 'prophy front-end|declared-before-use', ts.site(),
@@ -220,7 +221,7 @@ def recursion(ctx, L, cg, funcs, establishers):
                 # the prophy parser records a redefinition as an error but keeps parsing and overwrites typedecls[name]
                 pp = ctx.py.mod('prophyc.parsers.prophy')
                 td = ws(unparse(pp.func('Parser.p_typedef_def').node))
-                overwrites = 'self.typedecls[t[3]] = node' in td
+                overwrites = inn('self.typedecls[t[3]] = node', td)
                 sc = ws(unparse(pp.func('Parser._is_type_sizer_compatible').node))
                 visited = re.search(r'elif typename in (seen|visited): return False', sc) is not None and \
                     re.search(r'_is_type_sizer_compatible\(self\.typedecls\[typename\]\.type_name, (seen|visited) \+ \(typename,\)\)', sc) is not None
@@ -234,8 +235,8 @@ def recursion(ctx, L, cg, funcs, establishers):
     L.floor('F12.recursion', n, 5)
     fp = ctx.py.mod('prophyc.file_processor').func('FileProcessor._process_file')
     s = ws(unparse(fp.node))
-    L.check('if abspath in self.files: if self.files[abspath] is None: raise CyclicIncludeError(path) return self.files[abspath] '
-            'self.files[abspath] = None' in s, 'F12.establisher', 'include cycle marker', fp.site(),
+    L.check(inn('if abspath in self.files: if self.files[abspath] is None: raise CyclicIncludeError(path) return self.files[abspath] '
+            'self.files[abspath] = None', s), 'F12.establisher', 'include cycle marker', fp.site(),
             'the cycle marker must be stored before processing and tested (is None) before use', s[:300])
 
 
